@@ -20,6 +20,30 @@ class Inconclusive(Exception):
     pass
 
 
+def real_code_crash(stderr):
+    """the function of relex/slog-agent in which a Go process died (panic / fatal error), or None if it died elsewhere"""
+    i = max(stderr.rfind("\npanic:"), stderr.rfind("\nfatal error:"))
+    if i < 0 and not stderr.startswith(("panic:", "fatal error:")):
+        return None
+    tail = stderr[max(i, 0):]
+    j = tail.find("goroutine ")
+    if j < 0:
+        return None
+    skip = ("panic(", "runtime.", "runtime/", "github.com/sirupsen/logrus", "github.com/relex/gotils", "sync.", "sync/", "reflect.", "created by", "internal/", "testing.")
+    for line in tail[j:].splitlines()[1:]:
+        if not line or line.startswith(("\t", " ")):
+            continue
+        if line.startswith("goroutine "):
+            break
+        if line.startswith(skip):
+            continue
+        if line.startswith("github.com/relex/slog-agent/"):
+            fn = line.rsplit("(", 1)[0] if line.endswith(")") else line
+            return fn.replace("github.com/relex/slog-agent/", "").replace("(*", "").replace(")", "")[:120]
+        return None
+    return None
+
+
 def log(*a):
     print(*a, file=sys.stderr, flush=True)
 
@@ -72,6 +96,16 @@ class Check:
         p = subprocess.run([self.build_vh()] + args, capture_output=True, text=True, timeout=timeout, cwd=cwd,
                            env=env or os.environ)
         if check and p.returncode != 0:
+            where = real_code_crash(p.stderr or "")
+            if where:
+                # the process died inside the code under verification (not in the harness): a verdict if it does so again
+                p2 = subprocess.run([self.build_vh()] + args, capture_output=True, text=True, timeout=timeout, cwd=cwd, env=env or os.environ)
+                where2 = real_code_crash(p2.stderr or "") if p2.returncode != 0 else None
+                if where2:
+                    head = (p2.stderr or "")[(p2.stderr or "").find("panic:"):][:2500] if "panic:" in (p2.stderr or "") else (p2.stderr or "")[-2500:]
+                    self.report("crash:" + where2, "the driver process died inside relex/slog-agent code (twice in a row) at %s while running: %s\n%s" % (where2, " ".join(args)[:300], head),
+                                {"stderr.txt": (p2.stderr or "")[-20000:], "command.txt": " ".join(args)})
+                    raise Inconclusive("driver process died inside the code under verification at %s" % where2)
             raise Inconclusive("driver failed rc=%d: %s\n%s" % (p.returncode, " ".join(args), (p.stderr or p.stdout)[-3000:]))
         return p
 
